@@ -461,5 +461,5 @@ def c19(run, args):
                         "what a disconnect in the middle of DATA or with deletions pending does to the store is left to C03/C13 (those mailboxes are no longer compared)",
                         "a connection attempt after shutdown counts as served only if this server's banner (unique domain) arrives",
                         "the hub is wired to the store's extension host only in the dedicated group (3); elsewhere it runs on a host of its own so that schedules are not all cut short by the same crash",
-                        "one recipient domain, ordinary addresses; TLS not exercised; server idle timeout 600 s (never reached)",
+                        "one recipient domain, ordinary addresses; a third of the schedules over TLS listeners; server idle timeout 600 s (never reached) except in the idle family (1.5 s, clients silent and connected)",
                         "2- and 3-session schedules are sampled by seed from the complete BFS set; the LifecycleImpl model is a prediction, never the judge"]
